@@ -145,6 +145,8 @@ def run(ctx):
                 what, lo, hi = lim
                 if av.within(lo, hi):
                     ctx.holds("C20.1", m, site.node, f"{cons}: slot `{src}` ({what})", f"{av!r} within [{fmt(lo)}, {fmt(hi)}]")
+                elif av.opaque:
+                    ctx.unknown("C20.1", m, site.node, f"{cons}: slot `{src}` ({what})", f"the value flows through a construct the interval analysis does not model ({av!r}): cannot decide")
                 else:
                     ctx.violation("C20.1", m, site.node, f"{cons}: slot `{src}` ({what})",
                                   f"value sent can lie in {av!r}; documented limit [{fmt(lo)}, {fmt(hi)}]: the clamp is missing, its guard does not cover the out-of-range case, or a block count can be 0")
